@@ -458,6 +458,111 @@ fn b_nulls(n: usize) -> Vec<Value> {
     vec![Value::Null; n]
 }
 
+/// updates of primary-key columns keep keys unique and rows in key order (in memory and after reopen)
+fn s_keys() -> Result<(), String> {
+    fn invariant(p: &mut Package<Medium>, t: &str, nkeys: usize, what: &str) -> Result<Vec<Vec<Value>>, String> {
+        let rows = p.select_rows(Select::table(t)).map_err(|e| format!("select failed: {}", e))?;
+        let all: Vec<Vec<Value>> = rows.map(|r| (0..r.len()).map(|i| r[i].clone()).collect()).collect();
+        for w in all.windows(2) {
+            if w[0][..nkeys] >= w[1][..nkeys] {
+                return Err(format!("{}: table {} holds rows with keys {:?} then {:?} (not strictly ascending)", what, t, &w[0][..nkeys], &w[1][..nkeys]));
+            }
+        }
+        Ok(all)
+    }
+    let m = Medium::new();
+    let mut p = Package::create(PackageType::Installer, m.clone()).map_err(|e| e.to_string())?;
+    p.create_table("T", cols()).map_err(|e| e.to_string())?;
+    p.create_table("C", vec![Column::build("A").primary_key().string(0), Column::build("B").primary_key().int16(), Column::build("V").nullable().int32()])
+        .map_err(|e| e.to_string())?;
+    p.insert_rows(Insert::into("T").rows(vec![
+        vec![Value::Int(1), Value::from("one")],
+        vec![Value::Int(2), Value::from("two")],
+        vec![Value::Int(3), Value::from("three")],
+    ]))
+    .map_err(|e| e.to_string())?;
+    p.insert_rows(Insert::into("C").rows(vec![
+        vec![Value::from("x"), Value::Int(1), Value::Int(100)],
+        vec![Value::from("x"), Value::Int(2), Value::Int(200)],
+        vec![Value::from("y"), Value::Int(1), Value::Int(300)],
+    ]))
+    .map_err(|e| e.to_string())?;
+    // inserts: out of key order, colliding with an existing row, colliding within the batch (single and composite keys)
+    invariant(&mut p, "T", 1, "after the first insert")?;
+    p.insert_rows(Insert::into("T").rows(vec![vec![Value::Int(0), Value::from("zero")], vec![Value::Int(-5), Value::Null]])).map_err(|e| e.to_string())?;
+    let t5 = invariant(&mut p, "T", 1, "after inserting keys 0 and -5")?;
+    if t5.len() != 5 {
+        return Err(format!("after inserting two more rows the table has {} rows", t5.len()));
+    }
+    for (t, nk, batch) in [
+        ("T", 1, vec![vec![Value::Int(2), Value::from("again")]]),
+        ("T", 1, vec![vec![Value::Int(50), Value::Null], vec![Value::Int(50), Value::from("twice")]]),
+        ("C", 2, vec![vec![Value::from("x"), Value::Int(2), Value::Null]]),
+        ("C", 2, vec![vec![Value::from("q"), Value::Int(1), Value::Null], vec![Value::from("q"), Value::Int(1), Value::Int(1)]]),
+    ] {
+        let before = invariant(&mut p, t, nk, "before a colliding insert")?;
+        let r = p.insert_rows(Insert::into(t).rows(batch.clone()));
+        let after = invariant(&mut p, t, nk, "after a colliding insert")?;
+        if r.is_ok() {
+            return Err(format!("inserting {:?} into {} succeeds although a key collides", batch, t));
+        }
+        if after != before {
+            return Err(format!("a refused insert into {} changed the table", t));
+        }
+    }
+    p.delete_rows(Delete::from("T").with(Expr::col("K").lt(Expr::integer(1)))).map_err(|e| e.to_string())?;
+    // a constant assigned to the key of several rows: either refused (nothing changes) or keys stay unique
+    let before = invariant(&mut p, "T", 1, "setup")?;
+    let r = p.update_rows(Update::table("T").set("K", Value::Int(7)));
+    let after = invariant(&mut p, "T", 1, "after UPDATE T SET K = 7")?;
+    if r.is_err() && after != before {
+        return Err("a refused key update changed the table".into());
+    }
+    // one row's key assigned the key of a row the statement does not touch
+    let r = p.update_rows(Update::table("T").set("K", Value::Int(2)).with(Expr::col("K").eq(Expr::integer(3))));
+    let after1 = invariant(&mut p, "T", 1, "after UPDATE T SET K = 2 WHERE K = 3")?;
+    if r.is_err() && after1 != after {
+        return Err("a refused single-row key update changed the table".into());
+    }
+    // the key assigned after another column in the same statement
+    let r = p.update_rows(Update::table("T").set("S", Value::from("same")).set("K", Value::Int(8)));
+    let after2 = invariant(&mut p, "T", 1, "after UPDATE T SET S = 'same', K = 8")?;
+    if r.is_err() && after2 != after {
+        return Err("a refused two-column key update changed the table".into());
+    }
+    // values the column does not admit are refused, also for nullable columns
+    for (col, v) in [("S", Value::Int(3)), ("K", Value::from("text")), ("K", Value::Null)] {
+        if p.update_rows(Update::table("T").set(col, v.clone())).is_ok() {
+            return Err(format!("UPDATE T SET {} = {:?} succeeds although the column does not admit that value", col, v));
+        }
+    }
+    if invariant(&mut p, "T", 1, "after refused invalid updates")? != after2 {
+        return Err("a refused invalid update changed the table".into());
+    }
+    // a key moved past the others: rows are re-ordered
+    p.update_rows(Update::table("T").set("K", Value::Int(10)).with(Expr::col("K").eq(Expr::integer(1)))).map_err(|e| format!("moving one key failed: {}", e))?;
+    let moved = invariant(&mut p, "T", 1, "after UPDATE T SET K = 10 WHERE K = 1")?;
+    if moved.iter().map(|r| r[0].clone()).collect::<Vec<_>>() != vec![Value::Int(2), Value::Int(3), Value::Int(10)] {
+        return Err(format!("after moving key 1 to 10 the table reads {:?}", moved));
+    }
+    // composite key: one component assigned so that two rows collide
+    let before = invariant(&mut p, "C", 2, "setup")?;
+    let r = p.update_rows(Update::table("C").set("B", Value::Int(1)).with(Expr::col("A").eq(Expr::string("x"))));
+    let after = invariant(&mut p, "C", 2, "after UPDATE C SET B = 1 WHERE A = 'x'")?;
+    if r.is_err() && after != before {
+        return Err("a refused composite-key update changed the table".into());
+    }
+    // composite key: order changes without collision
+    p.update_rows(Update::table("C").set("A", Value::from("z")).with(Expr::col("V").eq(Expr::integer(100)))).map_err(|e| format!("moving a composite key failed: {}", e))?;
+    invariant(&mut p, "C", 2, "after UPDATE C SET A = 'z' WHERE V = 100")?;
+    p.flush().map_err(|e| e.to_string())?;
+    drop(p);
+    let mut q = Package::open(m.clone()).map_err(|e| format!("reopen failed: {}", e))?;
+    invariant(&mut q, "T", 1, "after reopen")?;
+    invariant(&mut q, "C", 2, "after reopen")?;
+    Ok(())
+}
+
 /// catch_unwind without the default hook's "panicked at" output (the driver reads that as an uncaught panic)
 fn quiet_catch<T>(f: impl FnOnce() -> T) -> std::thread::Result<T> {
     let hook = std::panic::take_hook();
@@ -523,6 +628,7 @@ fn s_join_names() -> Result<(), String> {
 
 #[test]
 fn replay_protocol() {
+    report("keys", s_keys());
     report("join_names", s_join_names());
     report("select_names", s_select_names());
     report("join", s_join());
